@@ -44,7 +44,12 @@ func Predict(spec *gen.MsgSpec, flags uint, noMore bool, avail int) Pred {
 	if hasCL {
 		t := spec.Hdrs[clIdx].Val
 		v, ok := new(big.Int).SetString(t, 10)
-		if !ok {
+		for i := 0; i < len(t); i++ {
+			if t[i] < '0' || t[i] > '9' {
+				ok = false
+			}
+		}
+		if !ok || t == "" {
 			return Pred{Ret: -1, BodyLen: -1, Why: "model: non-numeric Content-Length, no prediction"}
 		}
 		if len(t) > 9 || v.Cmp(big.NewInt(1<<24)) > 0 {
